@@ -63,7 +63,7 @@ K_NAN = "non-finite-estimate"
 MAX_DIAG_PER_GROUP = 3
 FULL_LIMIT = 4200  # contexts per item above which the focus scheme replaces the full product
 
-GL_QUICK = [(0.0, 0.0), (0.5, 1.0), (1.0, 0.5), (0.99, 0.95), (1.0, 1.0)]
+GL_QUICK = [(0.0, 0.0), (0.5, 1.0), (1.0, 0.5), (0.99, 0.95), (1.0, 1.0), (0.9, 0.0)]  # the last: lambda exactly 0 with a positive discount
 GL_THOROUGH = [(g, l) for g in (0.0, 0.5, 1.0) for l in (0.0, 0.5, 1.0)] + [(0.99, 0.95)]
 
 
@@ -121,7 +121,7 @@ def items(tier, seed):
             for td in tds:
                 add("gae", L=L, gamma=g, lmbda=l, tdtype=td)
     # A2C batch preparation
-    gl_a = [(0.99, 0.95), (0.5, 1.0)] if q else GL_QUICK
+    gl_a = [(0.99, 0.95), (0.5, 1.0), (0.9, 0.0)] if q else GL_QUICK
     for j, (g, l) in enumerate(gl_a):
         for N, T in itertools.product([1, 2, 3], [1, 2, 3]):
             if N == 3 and T == 3:
@@ -452,6 +452,22 @@ class Rtg(Family):
             raise Rejected(f"{type(e).__name__}: {e}") from e
         if out.shape != (len(rewards),) or arg != rewards:
             self.col.violation(SIG.format(self.entry, K_SHAPE), dict(rewards=rewards, shape=out.shape, argument_after=arg))
+            return None
+        # the rewards as a float64 array (what a rollout buffer holds), used twice: the argument is an input
+        arr = np.asarray(rewards, dtype=np.float64)
+        keep = arr.copy()
+        try:
+            o1 = np.asarray(discounted_reward_to_go(arr, self.item["gamma"]), dtype=np.float64)
+            o2 = np.asarray(discounted_reward_to_go(arr, self.item["gamma"]), dtype=np.float64)
+        except Exception as e:  # noqa: BLE001
+            raise Rejected(f"{type(e).__name__}: {e} (rewards as float64 array)") from e
+        self.col.tick(2)
+        if not np.array_equal(arr, keep):
+            self.col.violation(SIG.format(self.entry, "caller-array-modified-in-place"), dict(rewards=rewards, gamma=self.item["gamma"], array_after=arr.tolist()))
+            return None
+        if o1.shape != out.shape or not (np.allclose(o1, np.asarray(out, dtype=np.float64), rtol=1e-6, atol=1e-6) and np.array_equal(o1, o2)):
+            self.col.violation(SIG.format(self.entry, "depends-on-reward-number-type"), dict(rewards=rewards, gamma=self.item["gamma"], number_type="float64 array, two calls",
+                                                                                           first=o1.tolist(), second=o2.tolist(), with_list=np.asarray(out).tolist()))
             return None
         if all(float(r).is_integer() for r in rewards):
             # environments return integer rewards too (Python int / numpy integer): the estimate is a property of
